@@ -411,3 +411,31 @@ def r10(ctx, R):
 def r11(ctx, R):
     from . import c09
     c09.r10(ctx, R)
+
+
+@rule('C06', 'C06.R12', 'MPI controller, block transition: the step sizes from which the start times of the next block are accumulated are gathered AFTER the prepare_next_block callbacks installed the new step size (gathering before gives every rank > 0 a start time built from the finished block while it integrates with the new dt: gaps / overlaps)', floor=2)
+def r12(ctx, R):
+    repo = ctx.repo
+    rel = 'pySDC/implementations/controller_classes/controller_MPI.py'
+    fn = repo.func(rel, 'controller_MPI.run')
+    w = f'{rel}:controller_MPI.run'
+    R.fn(w)
+    cfg = FuncCFG(fn)
+    prep = [n for n, s in cfg.stmt_of.items() if any(isinstance(c.func, ast.Attribute) and c.func.attr == 'prepare_next_block' for c in cfg.calls_at(n))]
+    loops = [l for l in walk_no_nested(fn) if isinstance(l, ast.While)]
+    gath = [(n, s) for n, s in cfg.stmt_of.items() if isinstance(s, ast.Assign) and ast.unparse(s.targets[0]) == 'all_dt' and 'allgather' in ast.unparse(s.value) and cfg.loops_of[id(s)]]
+    use = [(n, s) for n, s in cfg.stmt_of.items() if isinstance(s, ast.Assign) and ast.unparse(s.targets[0]) == 'time' and 'all_dt' in ast.unparse(s.value) and cfg.loops_of[id(s)]]
+    ok = len(prep) == 1 and len(gath) == 1 and len(use) == 1
+    detail = {'prepare_next_block calls': len(prep), 'allgather(S.dt) in the block loop': len(gath), 'time = tend + sum(all_dt[:slot])': len(use)}
+    if ok:
+        ok = cfg.reachable(prep[0], gath[0][0]) and not _reach_no_backedge(cfg, gath[0][0], prep[0]) and cfg.dominates(gath[0][0], use[0][0]) and ast.unparse(gath[0][1].value) == 'comm_active.allgather(self.S.dt)'
+        detail['order'] = 'prepare_next_block -> allgather -> time' if ok else 'the gather does not follow the callbacks'
+    R.check(ok, 'controller_MPI.run :: all_dt = allgather(S.dt) follows prepare_next_block and dominates the new start time', w, 'prepare_next_block(..) ... all_dt = comm_active.allgather(self.S.dt); time = tend + sum(all_dt[:slot])', detail)
+    first = [s for s in walk_no_nested(fn) if isinstance(s, ast.Assign) and ast.unparse(s.targets[0]) == 'time' and not cfg.loops_of[id(s)]]
+    R.check(len(first) == 1 and ast.unparse(first[0].value) == 't0 + sum(all_dt[:self.comm.rank])', 'controller_MPI.run :: the first block starts at t0 + the step sizes of the ranks before this one', w, 't0 + sum(all_dt[:rank])', [ast.unparse(s.value) for s in first])
+
+
+def _reach_no_backedge(cfg, a, b):
+    """b reachable from a along statement order only (source line increasing) - a cheap stand-in for 'within one loop iteration'"""
+    sa, sb = cfg.stmt_of[a], cfg.stmt_of[b]
+    return sb.lineno > sa.lineno and cfg.reachable(a, b)
